@@ -120,8 +120,10 @@ func checkWiring(h *history) error {
 		case "client":
 			class, _ := fpClass(sc, e.FP)
 			pk, handed := pollOfOffer[e.Offer]
-			if class != "listed" && (r.AnswerGot != "" || r.Denied || r.TimedOut) && r.Done {
-				return fmt.Errorf("client event #%d named a fingerprint that is %s (%q); expected an error, got answer=%q err=%q", k, class, e.FP, clipS(r.AnswerGot), r.ErrGot)
+			if class != "listed" && (r.AnswerGot != "" || r.TimedOut) && r.Done {
+				// never matched: no answer, and no waiting for one either (the hand-over itself is
+				// checked above); being refused or told "no proxies" are both fine
+				return fmt.Errorf("client event #%d named a fingerprint that is %s (%q) yet was matched: answer=%q err=%q", k, class, e.FP, clipS(r.AnswerGot), r.ErrGot)
 			}
 			if r.AnswerGot != "" {
 				if !handed {
